@@ -66,9 +66,7 @@ theorem ownSig_layers (env : Env) (m : Method) (sid : Nat) (cur pend : Tr) :
     · simp [h]
     · simp [h]
 
-theorem deep_own_all (k : Nat) (m : Method) : (deep k m).filter (· == Layer.own) = [Layer.own] := by
-  cases m <;>
-    simp [deep, wideFwd_eq', wideRev_eq', List.filter_append, injections_no_own, List.filter_reverse]
+theorem deep_own_all (k : Nat) (m : Method) : (deep k m).filter (· == Layer.own) = [Layer.own] := deep_own_any k m
 
 /-- **every delivery reaches the state's own callback exactly once** -/
 theorem ownSig_deliver (env : Env) (m : Method) (sid : Nat) (cur pend : Tr) (s : St) :
